@@ -4,6 +4,8 @@ package main
 
 import (
 	"fmt"
+	"math/rand"
+	"os"
 	"sort"
 	"strings"
 	"sync"
@@ -68,6 +70,9 @@ type Job struct {
 	knownOpen  map[string]bool
 	execPkgs   map[string]bool
 	engineErrs []string
+	pathSamples []PathSample
+	nSamples    int
+	rng         *rand.Rand
 	pending    int64
 	done       chan struct{}
 	t0         time.Time
@@ -77,6 +82,8 @@ type Job struct {
 func newJob(spec JobSpec, knownOpen map[string]bool) *Job {
 	j := &Job{Spec: spec, Params: spec.Params, viol: map[string]*Violation{}, known: map[string]*Violation{}, funcs: map[string]bool{},
 		stubs: map[string]int{}, notes: map[string]int{}, reach: map[string]int{}, knownOpen: knownOpen, execPkgs: map[string]bool{}, done: make(chan struct{})}
+	j.rng = rand.New(rand.NewSource(seedFromEnv()))
+	j.nSamples = 3
 	for _, p := range spec.Exec {
 		j.execPkgs[p] = true
 	}
@@ -170,15 +177,56 @@ func (j *Job) sample(s *State, msg, verdict string) {
 	j.samples = append(j.samples, Sample{Job: j.Spec.Name, Obligation: msg, Verdict: verdict, PathLen: len(s.pc), Witness: wit})
 }
 
+// PathSample: a completed path with a concrete witness of its path condition; replayed natively
+// to validate the interpreter against the real build (DESIGN §4 self-validation).
+type PathSample struct {
+	Inputs []ReplayInput `json:"inputs"`
+	Failed []string      `json:"failed"`
+	Obs    []string      `json:"observed"`
+	Reach  []string      `json:"reached"`
+}
+
 func (j *Job) pathDone(s *State) {
-	atomic.AddInt64(&j.Paths, 1)
+	n := atomic.AddInt64(&j.Paths, 1)
 	j.mu.Lock()
 	for k := range s.reach {
 		j.reach[k]++
 	}
+	// reservoir sampling of path witnesses
+	slot := -1
+	if len(j.pathSamples) < j.nSamples {
+		j.pathSamples = append(j.pathSamples, PathSample{})
+		slot = len(j.pathSamples) - 1
+	} else if j.nSamples > 0 {
+		if r := j.rng.Int63n(n); r < int64(j.nSamples) {
+			slot = int(r)
+		}
+	}
+	j.mu.Unlock()
+	if slot < 0 || s.model == nil || len(s.threads) > 1 {
+		return
+	}
+	ps := PathSample{Inputs: replayInputs(s, s.model), Failed: append([]string{}, s.failed...)}
+	for _, o := range s.obs {
+		if t, ok := o.v.(*Term); ok {
+			ps.Obs = append(ps.Obs, fmt.Sprintf("%s %d", o.name, int64(evalTerm(t, s.model))))
+		}
+	}
+	for k := range s.reach {
+		ps.Reach = append(ps.Reach, k)
+	}
+	sort.Strings(ps.Reach)
+	j.mu.Lock()
+	j.pathSamples[slot] = ps
 	j.mu.Unlock()
 }
 
 func fmtF(bits uint64) string {
 	return fmt.Sprintf("%v(0x%x)", float64frombits(bits), bits)
+}
+
+func seedFromEnv() int64 {
+	var v int64 = 1
+	fmt.Sscan(os.Getenv("VERIF_SEED"), &v)
+	return v
 }
